@@ -121,7 +121,10 @@ def mk_world(rng, prev, rss, calm):
         x = old.get("x", rng.random() < 0.6)
         if rng.random() < 0.2:
             x = not x
-        e = {"x": x, "open": rng.random() >= 0.06, "xerr": rng.random() < 0.05, "re": False}
+        # the attribute's value does not matter, only its presence: a quarter of the tags are written with an empty value
+        # (what `setfattr -n user.x <dir>` writes), and the value may change between ticks while the tag stays
+        e = {"x": x, "open": rng.random() >= 0.06, "xerr": rng.random() < 0.05, "re": False,
+             "xv": rng.choice(["", "1", "1", "on"])}
         if was and KIND.get(p, "dir") == "dir" and rng.random() < 0.06 and not any(q.startswith(p + "/") for q in prev):
             e["re"] = True
         cur[p] = e
@@ -133,7 +136,7 @@ def world_entries(cur, rss):
     for p in UNIVERSE:
         if p in cur:
             e = cur[p]
-            out.append({"path": p, "kind": KIND.get(p, "dir"), "x": e["x"], "open": e["open"], "xerr": e["xerr"], "re": e["re"],
+            out.append({"path": p, "kind": KIND.get(p, "dir"), "x": e["x"], "xv": e.get("xv", "1"), "open": e["open"], "xerr": e["xerr"], "re": e["re"],
                         "m": [mult(r["cgroup"], p) if r.get("cgroup") else 0 for r in rss]})
     return out
 
